@@ -60,6 +60,8 @@ def run(ctx):
         "lines shorter than bufio.MaxScanTokenSize (precondition of Parse); at most 3 consecutive (0,nil) reads (bufio gives up at 100)",
         "invalid lines may be reported in any order relative to Add calls; records must arrive in source order",
         "the class of an invalid line is read from the *LineError with errors.Is / errors.As only",
+        "the data argument of HandleInvalid must be the bytes of the line (HandleSet: 'data is the original line from "
+        "the hosts file, including spaces'), copied at call time: the library must not have rewritten the line",
         "Equal: verdict required only where the doc comment is unambiguous (see HostsStorage!Equal3)",
         "caller memory: records are also built in one reused names buffer that is overwritten after every Add; Add must "
         "not write to rec / rec.Names (incl. spare capacity); slices returned by ByAddr / ByName are not documented as "
